@@ -14,7 +14,7 @@ def run(ctx):
         "to depth 3 / 4; (n', s', n_alpha, alpha') must equal the specification's, the candidate must be one the specification can return; "
         "WHICH admissible candidate is returned (the uniform draws inside build_tree) is not controlled: 6 generator seeds per script",
         "trajectory points are identified by the bit pattern of the logged (position, momentum); every leaf is re-integrated with the "
-        "harness's own leapfrog and closed-form gradient (tolerance 1e-7 f64, 5e-4 f32); coinciding points are not asserted",
+        "harness's own leapfrog and closed-form gradient (tolerance 1e-11 f64, 5e-4 f32); coinciding points are not asserted",
         "uniforms are quantised to 2^-16 with a margin of 2 quanta; U-turn products within 1e-4 of zero and slice/divergence "
         "comparisons within 1.0 of the bound 1000 are not asserted (rule U); the direction rule (which half of [0,1) means forward) is not asserted",
     ]
@@ -27,7 +27,7 @@ def run(ctx):
     rows = g.tagged("REPLAY")
     if len(rows) < 2000:
         raise vlib.ToolError("Replay_NutsTree produced %d results" % len(rows))
-    rr = ctx.harness(["c03", "replay", ctx.write_ndjson("bt_cases.ndjson", rows)], timeout=3000)[-1]
+    rr = replay_scripts(ctx, rows)
     ctx.cov["evaluations"] += rr["evaluations"]
     ctx.cov["traces_replayed_into_impl"] = ctx.cov.get("traces_replayed_into_impl", 0) + rr["cases"]
     ctx.cov["build_tree_replay"] = {k: rr[k] for k in ("cases", "evaluations", "full_depth_trees", "stopped_by_uturn", "cases_with_two_candidates_seen")}
@@ -125,6 +125,30 @@ def run(ctx):
                        "selection (wrong merge weight = negative control); build_tree replayed on scripted targets (Replay_NutsTree.tla); traces: Gaussians dim 1..8 with random precision, library Gaussian and Rosenbrock, funnel, "
                        "steep divergent, half-line (NaN region), cliffs (incl. jumps of +1500 / +3200), starts 120..220 sigma out in the tail (leaves thousands of units above the slice level), forced tiny/huge step sizes (tree depth up to 10), f32 and f64; non-trivial = transitions that moved")
     ctx.cov["exhaustive"] = False
+
+
+def replay_scripts(ctx, rows, per_shard=40000, workers=4):
+    """`c03 replay` in shards of whole scripts: burn-autodiff keeps every graph node of a tensor that is never differentiated
+    registered for the life of the process (20 GB after 1.8 million build_tree calls), so one process per 40 000 scripts."""
+    from concurrent.futures import ThreadPoolExecutor
+    groups = {}
+    for r_ in rows:
+        groups.setdefault(json.dumps([r_["v"], r_["j"], r_["p0"], r_["lev"], r_["pp"]]), []).append(r_)
+    keys = sorted(groups)
+    shards = [[r_ for k in keys[i:i + per_shard] for r_ in groups[k]] for i in range(0, len(keys), per_shard)]
+    paths = [ctx.write_ndjson("bt_cases_%03d.ndjson" % i, sh_) for i, sh_ in enumerate(shards)]
+    with ThreadPoolExecutor(max_workers=workers) as ex:
+        parts = list(ex.map(lambda p_: ctx.harness(["c03", "replay", p_], timeout=3000)[-1], paths))
+    res = {"bad": []}
+    for part in parts:
+        for k, v in part.items():
+            if k == "bad":
+                res["bad"] += v
+            elif isinstance(v, bool):
+                res[k] = v
+            elif isinstance(v, (int, float)):
+                res[k] = res.get(k, 0) + v
+    return res
 
 
 def replay(ctx, path):
